@@ -128,6 +128,8 @@ class Evaluator:
         cur = {}            # handle -> current dump in the history
         recipe = {}         # handle -> list of normalised ops
         poisoned = set()
+        origin = {}         # handle -> "read" | "build"
+        tainted = set()     # sets returned by a poisoned object: their recipe is not valid, nothing about them is judged
         prev_on_obj = {}    # slot -> (outcome, doc family)
         info = {"precondition_failed": None, "judged": 0}
 
@@ -172,6 +174,9 @@ class Evaluator:
                 if kind in ("read", "build"):
                     if h == target and before is None:
                         continue
+                    if h in tainted:
+                        self.stats.inc("unjudged_tainted_set")
+                        continue
                     v = verdict("V6", i, before, after, "a %s changed existing set %s" % (kind, h))
                     if prop == "C09":
                         return precondition(i, "bystander changed by a read (C10 territory)")
@@ -186,6 +191,14 @@ class Evaluator:
                 if kind == "edit":
                     if h == target:
                         continue
+                    if h in tainted or target in tainted:
+                        self.stats.inc("unjudged_tainted_set")
+                        continue
+                    if origin.get(h) == "build" and origin.get(target) == "build":
+                        # the property speaks about sets returned by reads; aliasing between two API-built
+                        # sets is recorded as a probe only
+                        self.stats.inc("probe_build_build_aliasing")
+                        continue
                     v = verdict("V6", i, before, after, "edit %s on %s changed other set %s" % (op["edit"], target, h))
                     if prop == "C09":
                         return precondition(i, "edit in a C09 history")
@@ -196,6 +209,7 @@ class Evaluator:
             ren = lambda _h: "x"
             if kind in ("read", "build") and st == "ok":
                 recipe[op["out"]] = [norm_op(op, ren)]
+                origin[op["out"]] = kind
             elif kind == "edit" and st in ("ok", "raised"):
                 recipe[op["in"]] = recipe[op["in"]] + [norm_op(op, ren)]
             # ---- reference comparisons
@@ -204,10 +218,17 @@ class Evaluator:
                 continue
             if is_poisoned:
                 self.stats.inc("unjudged_poisoned_object")
+                if kind == "read" and st == "ok":
+                    tainted.add(op["out"])
+                continue
+            if kind in ("write", "edit") and op["in"] in tainted:
+                self.stats.inc("unjudged_tainted_set")
                 continue
             if kind == "build":
                 continue
             if kind == "write" and prop != "C09":
+                continue
+            if kind == "edit" and origin.get(op["in"]) == "build":
                 continue
             if kind == "read":
                 rops = [norm_op(op, ren)]
